@@ -29,13 +29,15 @@ class GuardedList(list):
 
 
 def new_context(extra=None):
-    ctx = {'log': GuardedList(), 'glog': GuardedList(), 'gv': {}, 'cv': {}, 'v': 0, 'w': []}
+    ctx = {'log': GuardedList(), 'glog': GuardedList(), 'gv': {}, 'cv': {}, 'v': 0, 'w': [], 'n': [[]]}
     if extra:
         ctx.update(extra)
     return ctx
 
 
-COUNTERS = {'v': ('v = v + 1', 'v'), 'w': ('w.append(1)', 'len(w)')}
+COUNTERS = {'v': ('v = v + 1', 'v'), 'w': ('w.append(1)', 'len(w)'),
+            'n': ('n[0].append(1)', 'len(n[0])')}
+OLD_EXPR = {'v': '__old__.v', 'w': 'len(__old__.w)', 'n': 'len(__old__.n[0])'}
 
 
 def _sends(lst, val='v'):
@@ -74,7 +76,11 @@ def action_code(tid, sends=None, extra=None, counter='v'):
     return '\n'.join(lines)
 
 
-def guard_code(tid):
+def guard_code(tid, active_name=None):
+    if active_name is not None:
+        # the guard also depends on the live configuration through active()
+        return ("(glog.append((%d, getattr(event, 'name', None), getattr(event, 'uid', None))) "
+                "or (gv[%d] and active(%r)))" % (tid, tid, active_name))
     return ("(glog.append((%d, getattr(event, 'name', None), getattr(event, 'uid', None))) "
             "or gv[%d])" % (tid, tid))
 
@@ -85,23 +91,26 @@ def time_guard_code(tid, pred, d):
             % (tid, pred, d, d, d, pred, d))
 
 
-def cond_code(cid, with_old):
+def cond_code(cid, with_old, counter='v', active_name=None):
     """contract condition: logs its evaluation, value taken from cv (data only)"""
+    tail = 'cv[%d]' % cid
+    if active_name is not None:
+        tail = '((active(%r) or True) and cv[%d])' % (active_name, cid)
     if with_old:
-        return ("(log.append(('c', %d, __old__.v if __old__ is not None else None)) or cv[%d])"
-                % (cid, cid))
-    return "(log.append(('c', %d, None)) or cv[%d])" % (cid, cid)
+        return ("(log.append(('c', %d, %s if __old__ is not None else None)) or %s)"
+                % (cid, OLD_EXPR[counter], tail))
+    return "(log.append(('c', %d, None)) or %s)" % (cid, tail)
 
 
 def cond_code_fn(cid, with_old, counter='v'):
     """contract condition calling the harness function ``chk`` (fault injection by count)"""
     if with_old:
-        old = '__old__.v' if counter == 'v' else 'len(__old__.w)'
+        old = OLD_EXPR[counter]
         return "chk(%d, %s if __old__ is not None else None)" % (cid, old)
     return "chk(%d, None)" % cid
 
 
-_TID = re.compile(r"log\.append\(\('tr', (\d+), (?:v|len\(w\)), time\)\)")
+_TID = re.compile(r"log\.append\(\('tr', (\d+), (?:v|len\(w\)|len\(n\[0\]\)), time\)\)")
 _SID = re.compile(r"log\.append\(\('(?:en|ex)', (\d+), v, time\)\)")
 
 
@@ -123,22 +132,25 @@ def instrument(spec, guards='gv', contracts=None, cond_fn=False, counter='v'):
         def mk(c, with_old):
             return cond_code_fn(c, with_old, counter)
     else:
-        mk = cond_code
+        def mk(c, with_old, o=None):
+            return cond_code(c, with_old, counter, (o or {}).get('c_active'))
     for s in spec['states']:
         s['on_entry'] = entry_code(s['sid'], s.get('sends_entry'), s.get('extra_entry'), counter)
         s['on_exit'] = exit_code(s['sid'], s.get('sends_exit'), s.get('extra_exit'), counter)
         if contracts:
-            s['pre'] = [mk(c, False) for c in s.get('c_pre') or []]
-            s['post'] = [mk(c, True) for c in s.get('c_post') or []]
-            s['inv'] = [mk(c, True) for c in s.get('c_inv') or []]
+            kw = {} if cond_fn else {'o': s}
+            s['pre'] = [mk(c, False, **kw) for c in s.get('c_pre') or []]
+            s['post'] = [mk(c, True, **kw) for c in s.get('c_post') or []]
+            s['inv'] = [mk(c, True, **kw) for c in s.get('c_inv') or []]
     for t in spec['transitions']:
         t['action'] = action_code(t['id'], t.get('sends'), t.get('extra'), counter)
         if guards in ('gv', 'time') and t.get('tguard'):
             t['guard'] = time_guard_code(t['id'], t['tguard'][0], t['tguard'][1])
         elif guards == 'gv':
-            t['guard'] = guard_code(t['id'])
+            t['guard'] = guard_code(t['id'], t.get('aguard'))
         if contracts:
-            t['pre'] = [mk(c, False) for c in t.get('c_pre') or []]
-            t['post'] = [mk(c, True) for c in t.get('c_post') or []]
-            t['inv'] = [mk(c, True) for c in t.get('c_inv') or []]
+            kw = {} if cond_fn else {'o': t}
+            t['pre'] = [mk(c, False, **kw) for c in t.get('c_pre') or []]
+            t['post'] = [mk(c, True, **kw) for c in t.get('c_post') or []]
+            t['inv'] = [mk(c, True, **kw) for c in t.get('c_inv') or []]
     return spec
